@@ -107,6 +107,9 @@ def backend(env, topo, method, rhs, allow_negatives, unit=True):
             fallback = nn is not None
             src = nn if fallback else lm
             if lm is not None:
+                # the property's optimum ranges over non-negative candidates *including the multiplier*
+                obs.append(Ob("lsq-every-parameter-including-the-multiplier-is-bounded-below-by-zero",
+                              all(mn is not None and mn == 0 for mn in lm["mins"]) and len(lm["mins"]) == n + 1))
                 A, b = lm["args"]
                 obs.append(Ob("lmfit-gets-the-augmented-system", _aug_ok(env, np.asarray(A, dtype=object), list(np.asarray(b, dtype=object).reshape(-1)), M, rhs3, E)))
         if src is None:
@@ -126,6 +129,8 @@ def backend(env, topo, method, rhs, allow_negatives, unit=True):
         obs.append(Ob("lsq_linear-called", ll is not None))
         if ll is None:
             return obs
+        lo, hi = ll["bounds"]
+        obs.append(Ob("lsq_linear-bounds-are-zero-to-infinity", bool(np.all(np.asarray(lo) == 0)) and bool(np.all(np.isinf(np.asarray(hi, dtype=float))))))
         A, b = np.asarray(ll["A"], dtype=object), list(ll["b"])
         ok = env.true() & (A.shape == (n + 1, n + 1)) & (len(b) == n + 1)
         if A.shape == (n + 1, n + 1):
